@@ -2,7 +2,7 @@
 from ..propbase import deductive, lines_universe, gen_universe, STD_TRUST
 from ..report import Report
 
-FUNCS = ["markdown_it.rules_block.state_block.StateBlock.getLines", "markdown_it.rules_block.hr.hr", "markdown_it.rules_block.heading.heading", "markdown_it.rules_block.lheading.lheading", "markdown_it.rules_block.fence.fence", "markdown_it.rules_block.code.code", "markdown_it.rules_block.html_block.html_block",
+FUNCS = ["markdown_it.rules_block.state_block.StateBlock.__init__", "markdown_it.rules_block.state_block.StateBlock.getLines", "markdown_it.rules_block.hr.hr", "markdown_it.rules_block.heading.heading", "markdown_it.rules_block.lheading.lheading", "markdown_it.rules_block.fence.fence", "markdown_it.rules_block.code.code", "markdown_it.rules_block.html_block.html_block",
          "markdown_it.rules_block.list.skipOrderedListMarker", "markdown_it.rules_block.list.skipBulletListMarker"]
 
 
@@ -12,6 +12,8 @@ def run(tier, seed):
     lines_universe(rep, "vf.oracles:c08_verbatim", tier, "MarkdownIt.parse", "content lines are suffixes of their source lines minus indentation/markers; markup/info occur in the token's lines (hr: exact marker count); list start/info == digits")
     gen_universe(rep, "vf.oracles:c08_codespan", "vf.oracles2:gen_c08_spans", tier, "rules_inline.backticks.backtick", "code span content == text between the backtick strings (LF->space, one padding space stripped iff both present and not all U+0020)",
                  ["commonmark"], "all strings of <= k pieces over {space, a, LF, NBSP, TAB, EM SPACE, 'x y', VT}; distinct = distinct (prefix, length)", "code span interiors")
+    gen_universe(rep, "vf.oracles:c08_verbatim", "vf.oracles2:gen_c08_blanks", tier, "MarkdownIt.parse", "same content contract on lines whose leading blanks include NBSP, FF, VT, EM SPACE, IDEOGRAPHIC SPACE (content, never indentation)",
+                 ["commonmark", "js-default"], "16 document shapes x 5-7 non-space blanks, with and without final newline", "exotic leading blanks")
     from .c17 import add_list
     add_list(rep, "C08")
     deductive(rep, "C08", ["markdown_it.rules_inline.backticks.backtick"], "contracts.inline2")
